@@ -150,3 +150,45 @@ pub fn iterator_any<I: Iterator, F: FnMut(I::Item) -> bool>(this: &mut I, mut f:
     }
     false
 }
+
+pub fn option_or<T>(this: Option<T>, optb: Option<T>) -> Option<T> {
+    match this {
+        Some(x) => Some(x),
+        None => optb,
+    }
+}
+
+pub fn option_or_else<T, F: FnOnce() -> Option<T>>(this: Option<T>, f: F) -> Option<T> {
+    match this {
+        Some(x) => Some(x),
+        None => f(),
+    }
+}
+
+pub fn option_map_or<T, U, F: FnOnce(T) -> U>(this: Option<T>, default: U, f: F) -> U {
+    match this {
+        Some(t) => f(t),
+        None => default,
+    }
+}
+
+pub fn option_map_or_else<T, U, D: FnOnce() -> U, F: FnOnce(T) -> U>(this: Option<T>, default: D, f: F) -> U {
+    match this {
+        Some(t) => f(t),
+        None => default(),
+    }
+}
+
+pub fn result_unwrap_or<T, E>(this: Result<T, E>, default: T) -> T {
+    match this {
+        Ok(t) => t,
+        Err(_) => default,
+    }
+}
+
+pub fn result_is_ok_and<T, E, F: FnOnce(T) -> bool>(this: Result<T, E>, f: F) -> bool {
+    match this {
+        Err(_) => false,
+        Ok(x) => f(x),
+    }
+}
